@@ -161,7 +161,11 @@ class moduint(object):
     def __rpow__(self, v):
         return v**self.arg
     def __pow__(self, v):
-        return self.__class__(self.arg**v)
+        if isinstance(v, moduint):
+            cls = self.maxcast(v)
+            return cls(self.arg**v.arg)
+        else:
+            return self.__class__(self.arg**v)
 
 class modint(moduint):
     def __init__(self, arg):
